@@ -327,7 +327,7 @@ def run_case(base, case, acc, A):
             ok = False
         if ok:
             acc.count("second_call_comparisons")
-            differs = (raised[0] is None) != (raised[1] is None) or (raised[0] is None and results[0] != results[1]) or (raised[0] and raised[0].split(":")[0] != raised[1].split(":")[0])
+            differs = (raised[0] is None) != (raised[1] is None) or (raised[0] is None and not _same(results[0], results[1])) or (raised[0] and raised[0].split(":")[0] != raised[1].split(":")[0])
             if differs and raised[0] is None and raised[1] is None and _only_borderline(name, results[0], results[1], m_use):
                 acc.count("second_call_borderline_items_ignored")
                 differs = False
@@ -336,6 +336,15 @@ def run_case(base, case, acc, A):
                 # one of them may not exist, nothing uniquely defined to compare
                 acc.count("second_call_not_comparable_unbounded_envelope")
                 differs = False
+            ws = _warm_start_suboptimum(name, fn, rng, a2, m_use, results[0], results[1]) if differs and raised[0] is None and raised[1] is None and "rxn_obj" not in str(name) else None
+            if ws:
+                acc.violation(
+                    "C13/second-call-differs/solver-declares-a-non-optimal-point-optimal-on-the-warm-basis",
+                    f"{name}: first call {ws['first']}, second call {ws['second']}, on a fresh copy (cold basis) {ws['cold']}",
+                    dict(ident, **ws, start_recipe=wrec),
+                )
+                differs = False
+                ok = False
             if differs:
                 acc.violation(
                     f"C13/{name}/second-call-differs",
@@ -358,6 +367,46 @@ def run_case(base, case, acc, A):
             acc.nontrivial(name, cls, h([a2.get("rxns"), procs]), in_ctx)
     if case < 2:
         acc.sample({"model_class": cls, "analyses": chosen, "n_reactions": len(rids)})
+
+
+def _same(a, b):
+    """Structural equality of two result descriptions; numbers (already rounded to the
+    analysis' digits) are equal up to 1.5e-4 relative - two roundings of one value can
+    land on different sides of a rounding boundary, state carried over does not hide
+    behind the fifth digit."""
+    if isinstance(a, float) or isinstance(b, float):
+        try:
+            return abs(float(a) - float(b)) <= 1.5e-4 * max(1.0, abs(float(a)), abs(float(b)))
+        except (TypeError, ValueError):
+            return a == b
+    if isinstance(a, dict) and isinstance(b, dict):
+        return a.keys() == b.keys() and all(_same(a[k], b[k]) for k in a)
+    if isinstance(a, (list, tuple)) and isinstance(b, (list, tuple)):
+        return len(a) == len(b) and all(_same(x, y) for x, y in zip(a, b))
+    return a == b
+
+
+MINIMISING = {"pfba", "pfba(fraction)", "moma(linear)", "room(linear)", "room", "geometric_fba"}
+
+
+def _warm_start_suboptimum(name, fn, rng, a2, m_use, r1, r2):
+    """Proves the recorded solver mechanism: both calls report status optimal for a
+    minimisation, the values differ, and the same call on a fresh copy of the model (cold
+    basis, same problem) returns the *smaller* one - i.e. on the warm basis left by the
+    previous call GLPK declared a non-optimal point optimal."""
+    if name not in MINIMISING:
+        return None
+    try:
+        if not (r1[0] == r2[0] == "optimal") or _same(r1[1], r2[1]):
+            return None
+        with warnings.catch_warnings():
+            warnings.simplefilter("ignore")
+            cold = fn(m_use.copy(), rng, a2)
+        if cold[0] == "optimal" and _same(cold[1], min(r1[1], r2[1])):
+            return {"first": r1, "second": r2, "cold": cold}
+    except Exception:
+        return None
+    return None
 
 
 def _only_borderline(name, r1, r2, model):
@@ -385,7 +434,32 @@ def _only_borderline(name, r1, r2, model):
         return False
 
 
+def run_probe(pr, acc):
+    """Committed case for the recorded warm-start finding: one analysis called twice on a
+    model built from a fixed recipe."""
+    A = analyses()
+    fn, _p = A[pr["analysis"]]
+    with warnings.catch_warnings():
+        warnings.simplefilter("ignore")
+        model = gen.build(pr["recipe"])
+        rng = gen.rng_for("C13probe", pr["name"])
+        a2 = {"p": 1}
+        r1 = fn(model, rng, a2)
+        r2 = fn(model, rng, a2)
+    acc.ev()
+    acc.count("probes_run")
+    ws = _warm_start_suboptimum(pr["analysis"], fn, rng, a2, model, r1, r2)
+    if ws:
+        acc.violation("C13/second-call-differs/solver-declares-a-non-optimal-point-optimal-on-the-warm-basis", f"{pr['analysis']}: first call {ws['first']}, second call {ws['second']}, on a fresh copy (cold basis) {ws['cold']}", {"probe": pr["name"], **ws})
+    elif not _same(r1, r2):
+        acc.violation(f"C13/{pr['analysis']}/second-call-differs", f"calling {pr['analysis']} twice gave different results: {r1} vs {r2}", {"probe": pr["name"]})
+
+
 def run_shard(desc, acc):
+    if desc.get("kind") == "probes":
+        for pr in desc["probes"]:
+            run_probe(pr, acc)
+        return
     A = analyses()
     first = desc.get("first", 0)
     for case in range(first, first + desc["cases"]):
